@@ -122,6 +122,8 @@ class EthAddr (_AddrBase):
           # Assume it's hex digits but they may not all be in two-digit
           # groupings (e.g., xx:x:x:xx:x:x). This actually comes up.
           addr = b''.join([b"%02x" % (int(x,16),) for x in addr.split(b":")])
+          if len(addr) != 12:
+            raise RuntimeError("Bad format for ethernet address")
         # We should now have 12 hex digits (xxxxxxxxxxxx).
         # Convert to 6 raw bytes.
         addr = bytes(int(addr[x*2:x*2+2], 16) for x in range(0,6))
